@@ -69,6 +69,7 @@ def main():
         verdict = {0: "SURVIVED", 1: "detected", 2: "HARNESS-ERROR"}.get(p.returncode, "rc=%d" % p.returncode)
         import re
         sites = sorted({m.group(1) for m in (re.match(r"^\s+(\S+ @ [^:]+):", l) for l in out) if m})
+        desc = " \\n ".join(x.strip() for x in desc.splitlines())
         line = "| %s | %s | %s | %.0fs | %s | %s |\n" % (a.prop, desc.replace("|", "\\|"), verdict, dt, "; ".join(sites)[:200].replace("|", "\\|"), a.note)
         print(line)
         if not a.no_record:
